@@ -62,10 +62,10 @@ def make_inh_trace(job):
     seed, profile, nops, opts = job
     g = GenInh(seed, profile, **opts.get("gen", {}))
     defs = g.program()
-    w = World(defs, track_handles=True)
+    w = World(defs, track_handles=True, recalc=opts.get("recalc", False))
     try:
         hdr = {"init": defs, "pdefs": w.project_defs(), "seed": seed, "profile": profile,
-               "recalc": False, "checkdefs": True, "world": "inh"}
+               "recalc": bool(opts.get("recalc", False)), "checkdefs": True, "world": "inh"}
         evs = []
         for _ in range(nops):
             op = g.next_op()
@@ -96,10 +96,10 @@ def make_dyn_trace(job):
     seed, profile, nops, opts = job
     g = GenDyn(seed, profile, **opts.get("gen", {}))
     defs = g.program()
-    w = World(defs, track_handles=True)
+    w = World(defs, track_handles=True, recalc=opts.get("recalc", False))
     try:
         hdr = {"init": defs, "pdefs": w.project_defs(), "seed": seed, "profile": profile,
-               "recalc": False, "checkdefs": False, "world": "dyn"}
+               "recalc": bool(opts.get("recalc", False)), "checkdefs": False, "world": "dyn"}
         evs = []
         for _ in range(nops):
             op = g.next_op()
